@@ -23,7 +23,7 @@ const LABELS: [&str; 27] = [
 ];
 
 fn gen_circuit(r: &mut Prng) -> Circuit {
-    let n = r.below(13);
+    let n = if r.chance(15, 1000) { *r.pick(&[17usize, 33, 65, 66, 129]) } else { r.below(13) };
     let allow_dup = r.chance(1, 10);
     let mut pins = vec![];
     let mut used: Vec<String> = vec![];
@@ -72,7 +72,8 @@ fn gen_circuit(r: &mut Prng) -> Circuit {
         };
         pins.push(Pin { kind, label, bits, default });
     }
-    let nt = r.below(6);
+    // (now and then many tests and many pins: 17 / 33 / 65+ of them)
+    let nt = if r.chance(15, 1000) { *r.pick(&[17usize, 33, 65, 70]) } else { r.below(6) };
     let mut tests = vec![];
     for _ in 0..nt {
         let label = match r.below(6) {
